@@ -12,7 +12,7 @@ Theorem c20_validate_iff_matrix : forall c, validate c = VOk <->
      bsp (nth i (logicals c) []) (nth j (logicals c) []) = twist_rel (length (logicals c)) i j).
 Proof. exact validate_ok_iff. Qed.
 
-(* k X-logicals and k Z-logicals: canonical relations X_i/Z_j *)
+(* k pX-logicals and k pZ-logicals: canonical relations X_i/Z_j *)
 Theorem c20_validate_iff_canonical : forall c, length (lxs c) = length (lzs c) ->
   (validate c = VOk <->
    (forall s s', In s (stabs c) -> In s' (stabs c) -> bsp s s' = false) /\
@@ -53,10 +53,10 @@ Theorem c20_corruption : forall c pre s post d p,
 Proof. exact corrupt_stabilizer_detected. Qed.
 
 (* non-vacuity: the five-qubit code validates; swapping a logical pair does not *)
-Definition five := code_of [[X;Z;Z;X;I]; [I;X;Z;Z;X]; [X;I;X;Z;Z]; [Z;X;I;X;Z]] [[X;X;X;X;X]] [[Z;Z;Z;Z;Z]].
+Definition five := code_of [[pX;pZ;pZ;pX;pI]; [pI;pX;pZ;pZ;pX]; [pX;pI;pX;pZ;pZ]; [pZ;pX;pI;pX;pZ]] [[pX;pX;pX;pX;pX]] [[pZ;pZ;pZ;pZ;pZ]].
 Example c20_ex_five : validate five = VOk /\
-  validate (code_of [[X;Z;Z;X;I]; [I;X;Z;Z;X]] [[X;X;X;X;X]] [[X;X;X;X;X]]) = VErrLog /\
-  validate (code_of [[X;Z;Z;X;I]; [Z;X;Z;Z;X]] [[X;X;X;X;X]] [[Z;Z;Z;Z;Z]]) = VErrStab.
+  validate (code_of [[pX;pZ;pZ;pX;pI]; [pI;pX;pZ;pZ;pX]] [[pX;pX;pX;pX;pX]] [[pX;pX;pX;pX;pX]]) = VErrLog /\
+  validate (code_of [[pX;pZ;pZ;pX;pI]; [pZ;pX;pZ;pZ;pX]] [[pX;pX;pX;pX;pX]] [[pZ;pZ;pZ;pZ;pZ]]) = VErrStab.
 Proof. vm_compute. auto. Qed.
 
 Print Assumptions c20_validate_iff_matrix. Print Assumptions c20_validate_iff_canonical.
